@@ -502,6 +502,122 @@ def impl_number_labels(arg):
         return [norm(l) for l in LabelStyle().format_labels([None] * arg[0])]
     return call_impl(run)
 
+# ---- histories: consecutive calls in one process through the public entry points
+# call = [entry point, cfg, db, citation mode]; the history carries one citation list that the caller re-uses
+# entry points: 0 pybtex.format_from_string  1 PybtexEngine().format_from_string  2 pybtex.format_from_file
+#               3 PybtexEngine().format_from_files([stream])  4 Style.format_bibliography(parsed database)
+# citation modes: 0 the default  1 a fresh ['*']  2 the caller's list object (re-used)  3 a tuple of it
+def bib_of(db):
+    out = []
+    for e in db:
+        fs = ['  %s = {%s}' % (S(k), S(v)) for k, v in e[2]]
+        fs += ['  %s = {%s}' % (S(r), ' and '.join(spec_person_str(p) for p in ps)) for r, ps in e[3]]
+        out.append('@%s{%s,\n%s\n}\n' % (S(e[1]), S(e[0]), ',\n'.join(fs)))
+    return '\n'.join(out)
+
+_PARSED = {}
+def parsed_db(db):
+    """the database as the .bib reader delivers it (unfiltered), in the encoding of fn 1"""
+    k = sx(db)
+    if k not in _PARSED:
+        from pybtex.database import parse_string
+        if len(_PARSED) > 3000:
+            _PARSED.clear()
+        with Strict(False):
+            bd = parse_string(bib_of(db), 'bibtex')
+        _PARSED[k] = norm([dump_entry(e) for e in bd.entries.values()])
+    return _PARSED[k]
+
+_REC = None
+def rec_backend():
+    global _REC
+    if _REC is None:
+        base = type(backend())
+        class Rec(base):
+            records = []
+            def write_prologue(self): pass
+            def write_epilogue(self): pass
+            def write_entry(self, key, label, text):
+                Rec.records.append([norm(key), norm(label), compact(text)])
+        _REC = Rec
+    return _REC
+
+def history_cites(call, shared):
+    """(model's citations option, python value) for a call"""
+    ep, mode = call[0], call[3]
+    if mode == 0:
+        return (None if ep == 4 else [norm('*')])
+    if mode == 1:
+        return [norm('*')]
+    return shared
+
+def _entry_point_functions():
+    import pybtex
+    fs = [pybtex.format_from_string, pybtex.format_from_strings, pybtex.format_from_file, pybtex.format_from_files]
+    for cls in (pybtex.Engine, pybtex.PybtexEngine):
+        for n in ('format_from_string', 'format_from_strings', 'format_from_file', 'format_from_files', 'make_bibliography'):
+            f = cls.__dict__.get(n)
+            if f is not None:
+                fs.append(f)
+    return fs
+
+def impl_history(arg):
+    """a history starts from the state of a fresh process as far as default arguments go: the mutable defaults of
+    the entry points are saved before and restored after, so that one history cannot contaminate the next case
+    and a reported history replays on its own"""
+    import copy
+    saved = [(f, copy.deepcopy(f.__defaults__), copy.deepcopy(f.__kwdefaults__)) for f in _entry_point_functions()]
+    try:
+        return _impl_history(arg)
+    finally:
+        for f, d, k in saved:
+            f.__defaults__ = d; f.__kwdefaults__ = k
+
+def _impl_history(arg):
+    import pybtex, io, os, tempfile, shutil
+    shared_orig = [S(c) for c in arg[0]]
+    shared = list(shared_orig)
+    outs = []
+    for call in arg[1]:
+        ep, cfg, db, mode = call
+        Rec = rec_backend()
+        del Rec.records[:]
+        text = bib_of(db)
+        kw = {}
+        if mode == 1: kw['citations'] = ['*']
+        elif mode == 2: kw['citations'] = shared
+        elif mode == 3: kw['citations'] = tuple(shared)
+        def run():
+            with Strict(bool(cfg[6])):
+                _speedup()
+                if ep == 4:
+                    from pybtex.database import parse_string
+                    bd = parse_string(text, 'bibtex')
+                    fb = mk_style(cfg).format_bibliography(bd, **kw)
+                    Rec('utf-8').write_to_stream(fb, io.StringIO())
+                else:
+                    pick = lambda o, names: names[o[0]] if o else None
+                    opts = dict(style=FSTYLES[cfg[0]], label_style=pick(cfg[1], LABELS), sorting_style=pick(cfg[2], SORTS),
+                                name_style=pick(cfg[3], NAMES), abbreviate_names=bool(cfg[4]), min_crossrefs=cfg[5],
+                                output_backend=Rec, bib_format='bibtex')
+                    opts.update(kw)
+                    if ep == 0: pybtex.format_from_string(text, **opts)
+                    elif ep == 1: pybtex.PybtexEngine().format_from_string(text, **opts)
+                    elif ep == 3: pybtex.PybtexEngine().format_from_files([io.StringIO(text)], **opts)
+                    else:
+                        d = tempfile.mkdtemp()
+                        try:
+                            fn = os.path.join(d, 'h.bib')
+                            with open(fn, 'w', encoding='utf-8') as f:
+                                f.write(text)
+                            pybtex.format_from_file(fn, **opts)
+                        finally:
+                            shutil.rmtree(d, ignore_errors=True)
+                return [list(r) for r in Rec.records]
+        r = classify(run)
+        outs.append([r, 1 if shared == shared_orig else 0])
+    return outs
+
 P_SCH = ('T', ('L', 'S'), ('L', 'S'), ('L', 'S'), ('L', 'S'), ('L', 'S'))
 E_SCH = ('T', 'X', 'X', ('L', ('T', 'X', 'S')), ('L', ('T', 'X', ('L', P_SCH))))
 FUNCS = {
@@ -514,6 +630,8 @@ FUNCS = {
     7: ('Text.from_latex', impl_from_latex, ('T', 'S')),
     8: ('labels.number.LabelStyle.format_labels', impl_number_labels, ('T', 'N')),
     9: ('labels.alpha.LabelStyle.format_label', impl_alpha_label, ('T', E_SCH)),
+    10: ('history of format_from_string / format_from_file(s) / Style.format_bibliography calls', impl_history,
+         ('T', 'X', ('L', 'X'))),
 }
 
 # ------------------------------------------------------------------------------------------
@@ -553,6 +671,13 @@ def stored_entry(e):
     return norm(dump_entry(mk_entry(e), S(e[0])))
 
 def _model_arg(fn, arg):
+    if fn == 10:
+        out = []
+        for call in arg[1]:
+            ep, cfg, db, mode = call
+            c = history_cites(call, arg[0])
+            out.append(_model_arg(1, [cfg, parsed_db(db), [] if c is None else [c]]))
+        return out
     if fn in (3, 4):
         return [[stored_entry(e) for e in arg[0]]] + arg[1:]
     if fn == 9:
@@ -577,6 +702,8 @@ def _model_arg(fn, arg):
 def canon(fn, out):
     """compared observables: outcome class; for FieldIsMissing the field and entry named (the property
     speaks of them); the message text and the back-end renderings are for the oracle only"""
+    if fn == 10:
+        return [[canon(1, c[0]), c[1]] for c in out]
     if not isinstance(out, list) or not out:
         return out
     if out[0] == 0:
@@ -1019,7 +1146,21 @@ def oracle_name(arg, out):
         return 'name tokens %r do not appear in this order with only separators around in %r' % (order, ''.join(atoms))
     return None
 
+def oracle_history(arg, out):
+    """each call of a history is judged as that call alone; the caller's citation list stays as it was"""
+    for k, (call, (r, unchanged)) in enumerate(zip(arg[1], out)):
+        ep, cfg, db, mode = call
+        c = history_cites(call, arg[0])
+        m = oracle_bib([cfg, parsed_db(db), [] if c is None else [c]], r)
+        if m:
+            return 'call %d of the history (entry point %d, citation mode %d): %s' % (k + 1, ep, mode, m)
+        if not unchanged:
+            return 'call %d of the history modified the caller\'s citation list' % (k + 1)
+    return None
+
 def oracle(fn, arg, out):
+    if fn == 10:
+        return oracle_history(arg, out)
     if fn == 1:
         return oracle_bib(arg, out)
     if fn == 5:
@@ -1417,6 +1558,38 @@ def _gen(tier, rng):
             db = [[e[0], e[1], e[2] + [[f, rand_value(rng, f)] for f in type_fields(e[1])[0] if f not in [x[0].lower() for x in e[2]] and f not in ('crossref',) and rng.random() < 0.9],
                    e[3] + [[r, [rand_person(rng)]] for r in ROLES if r not in [x[0].lower() for x in e[3]]]] for e in db]
         yield ('random_db', 1, [rand_cfg(rng), db, rand_cites(rng, db)])
+    # ---- histories of calls in one process
+    def hist_entry(key):
+        e = rand_entry(rng, key)
+        e[2] = [[k.lower(), v] for k, v in e[2] if k.lower() not in ('crossref',)]
+        seen = set(); e[2] = [kv for kv in e[2] if not (kv[0] in seen or seen.add(kv[0]))]
+        e[3] = [[r.lower(), [q for q in ps if spec_person_str(q) != 'others'] or [P(last=['Solo'])]] for r, ps in e[3]]
+        seen = set(); e[3] = [rp for rp in e[3] if not (rp[0] in seen or seen.add(rp[0]))]
+        # make the required fields present so that whole bibliographies come out
+        have = [k for k, v in e[2]]
+        e[2] += [[f, rand_value(rng, f) or 'x'] for f in type_fields(e[1])[0] if f not in have and f != 'crossref']
+        e[3] += [[r, [P(['Ann'], [], [], ['Author'])]] for r in ROLES if r not in [x[0] for x in e[3]]]
+        return e
+    for i in range(40 if quick else 600):
+        ncalls = rng.choice([2, 2, 3])
+        pools = [rng.sample(KEYS, rng.choice([1, 2, 3])) for _ in range(ncalls)]
+        if rng.random() < 0.3:
+            pools[1] = list(pools[0])
+        shared = rng.sample(pools[0], rng.randint(1, len(pools[0])))
+        calls = []
+        for k in range(ncalls):
+            db = [hist_entry(key) for key in pools[k]]
+            mode = rng.choice([0, 0, 1, 2, 2, 3])
+            if mode in (2, 3) and not all(c in pools[k] for c in shared):
+                db += [hist_entry(key) for key in shared if key not in pools[k]]
+            cfg = rand_cfg(rng, strict=1); cfg[5] = 2
+            calls.append([rng.randrange(5), cfg, db, mode])
+        yield ('history', 10, [shared, calls])
+    for ep in range(5):
+        d1 = [hist_entry('alpha1'), hist_entry('alpha2')]; d2 = [hist_entry('beta1')]
+        c0 = [0, None, None, None, 0, 2, 1]
+        yield ('history', 10, [['alpha1'], [[ep, c0, d1, 0], [ep, c0, d2, 0]]])
+        yield ('history', 10, [['alpha1'], [[ep, c0, d1, 2], [ep, c0, d1, 2], [ep, c0, d1, 3]]])
     # ---- malformed
     for i in range(300 if quick else 2500):
         db = rand_db(rng, rng.choice([1, 2, 3]))
@@ -1497,12 +1670,18 @@ def describe(fn, arg):
         return {'text': S(arg[0])}
     if fn == 9:
         return {'entry': ent(arg[0])}
+    if fn == 10:
+        return {'callers_citation_list': [S(c) for c in arg[0]],
+                'calls': [{'entry_point': ['pybtex.format_from_string', 'PybtexEngine().format_from_string', 'pybtex.format_from_file', 'PybtexEngine().format_from_files', 'Style.format_bibliography'][c[0]],
+                           'style': FSTYLES[c[1][0]], 'citations': ['default', "['*']", 'the caller\'s list (re-used)', 'a tuple'][c[3]], 'bib': bib_of(c[2])} for c in arg[1]]}
     return {'arg': arg}
 
 def nontrivial(fn, arg, out):
+    if fn == 10:
+        return any(c[0][:1] == [0] and c[0][1] for c in out)
     return out[:1] == [0] and len(sx(out)) > 12 or out[:1] == [1]
 
-RULE = ('pinned defect inputs; exhaustive: textutils.abbreviate on all strings over {a,B,space,-,.}, Text.from_latex on all strings over {a,{,},-}, '
+RULE = ('pinned defect inputs; histories of 2-3 consecutive calls in one process through pybtex.format_from_string / format_from_file, PybtexEngine().format_from_string / format_from_files and Style.format_bibliography with default citations, a fresh ["*"], the caller\'s own re-used list object and a tuple (each call judged as that call alone, the caller\'s list compared before/after); exhaustive: textutils.abbreviate on all strings over {a,B,space,-,.}, Text.from_latex on all strings over {a,{,},-}, '
         'every template combinator over all child tuples (length <= 2, thorough 3) from a pool of 19 leaves (literals, None, present/empty/missing/inherited '
         'fields with each apply_func, raw fields, names, rich literals), name styles over a grid of name-part shapes; random: nested trees of depth <= 3, '
         'random persons, random small databases for alpha labels and sorting; all 17 entry types x patterns of present template fields x role patterns x '
